@@ -36,7 +36,7 @@ from sdc11073.xml_types import xml_structure as xs
 READY = True
 MANIFEST = dict(
     technique='Lean 4 theorems over a model of the declarative XML binding (one write/read pair per descriptor kind, abstract scalar codec, classes = member lists of a generated table): per-kind read-after-write, frame lemmas, class-level round trip by induction over the member list and the nesting depth for every table whose classes satisfy a decidable side condition (kernel-evaluated for the generated table); type-directed differential testing of as_etree_node / from_node against the compiled model',
-    text='Theorems (Properties/C05.lean): read_write_kind (all 8 descriptor kinds incl. nested instances, xsi:type substitution, lists, raw content), write_frame / read_local (members with distinct XML names do not interfere), roundtrip (for every class with okCls and every well-typed instance of any nesting depth: writeCls succeeds and readCls gives the instance back), rewrite_same (writing the read value gives the same XML), roundtrip_with_xsi_type, absent_defaults / empty_element_defaults (an absent attribute / child reads as None, [] or the declared default), generated_classes_ok (kernel evaluation: all 245 classes of the generated table satisfy okCls except msg_types.Mds/Vmd/Channel), public_read_present / public_read_absent (a present - also falsy - value is what the attribute read returns, an absent one reads as the implied value), generated_schema_matches_xsd (kernel evaluation: the class table agrees with the bundled XSD - member order = XSD sequence order, declared value class = XSD element type, lists vs maxOccurs, attribute names, implied values = XSD defaults - for all 204 classes that stand for an XSD type, with the explicitly listed deviations). The table (Generated/Schema.lean: 245 classes, ~1290 members, xsi:type registries) is regenerated from the running code; on every run the real as_etree_node / mk_node output (names interned, prefixes resolved) is compared with the model writeCls and from_node with readCls for generated instances of every class (presence patterns, list lengths, enum members, xsi:type substitutions, XML-legal strings), plus reads with absent defaulted members and malformed lexical forms; the read correspondence also compares the value as read through the public attributes. The bundled XSD is an independent reference: Generated/XsdTable.lean is produced by a plain walk over xsd/*.xsd. Oracle clauses beyond the round trip: public reads (stored value when present, implied when absent; falsy values generated), foreign-writer documents (prefixes declared locally / renamed / default name space) read to the same value, documents for values of the schema value space (required attributes and minOccurs taken from the XSD) are structurally schema valid, elements whose XSD type is more derived than the declared value class are read without loss.',
+    text='Theorems (Properties/C05.lean): read_write_kind (all 8 descriptor kinds incl. nested instances, xsi:type substitution, lists, raw content), write_frame / read_local (members with distinct XML names do not interfere), roundtrip (for every class with okCls and every well-typed instance of any nesting depth: writeCls succeeds and readCls gives the instance back), rewrite_same (writing the read value gives the same XML), roundtrip_with_xsi_type, absent_defaults / empty_element_defaults (an absent attribute / child reads as None, [] or the declared default), generated_classes_ok (kernel evaluation: all 245 classes of the generated table satisfy okCls except msg_types.Mds/Vmd/Channel), public_read_present / public_read_absent (a present - also falsy - value is what the attribute read returns, an absent one reads as the implied value), generated_schema_matches_xsd (kernel evaluation: the class table agrees with the bundled XSD - member order = XSD sequence order, declared value class = XSD element type, lists vs maxOccurs, attribute names, implied values = XSD defaults - for all 204 classes that stand for an XSD type, with the explicitly listed deviations). The table (Generated/Schema.lean: 245 classes, ~1290 members, xsi:type registries) is regenerated from the running code; on every run the real as_etree_node / mk_node output (names interned, prefixes resolved) is compared with the model writeCls and from_node with readCls for generated instances of every class (presence patterns, list lengths, enum members, xsi:type substitutions, XML-legal strings), plus reads with absent defaulted members and malformed lexical forms; the read correspondence also compares the value as read through the public attributes. The bundled XSD is an independent reference: Generated/XsdTable.lean is produced by a plain walk over xsd/*.xsd. Oracle clauses beyond the round trip: public reads (stored value when present, implied when absent; falsy values generated), foreign-writer documents (prefixes declared locally / renamed / default name space) read to the same value, documents for values of the schema value space (required attributes and minOccurs taken from the XSD) are structurally schema valid, elements whose XSD type is more derived than the declared value class are read without loss. Decimals are generated incl. tiny / exponent-form / 18-digit values and go through the real converters inside the containers.',
     note='partial: (1) XSD validity is not modelled in Lean: structural validity (element / attribute order and presence) of documents rooted in a global element is an oracle clause and the class table is compared with the XSD in the kernel; simple-type facets (patterns, ranges) are supporting evidence only; KNOWN FINDINGS xsd-invalid:unexpected-element:ContainmentTree / ErrorInfo (list members the XSD allows once), accepted deviation: SequenceId / OperatingMode / Relation.Entries are required in the XSD and optional in the class; (2) scalar converters are abstract: their round trip is a hypothesis (Codec.RT inside WT), proved for the real converters in C18; the join/split of list lexical forms is a hypothesis too; (3) C05_full is not claimed: classes outside okCls (msg_types.Mds, Vmd, Channel: ContainerProperty(None) writes into the node itself) and values outside WT (None in a mandatory member, unresolvable xsi:type, empty items in text lists) are excluded; ExtensionLocalValue / any-content is opaque; mex Metadata.from_node (dialect dispatch, takes the soap body) and the body-less Unsubscribe messages are outside the model. Trusted: Lean kernel, translator + harness (interning of names, QName resolution), lxml.',
     ref='5 C05')
 DRIVERS = ['drv_c05']
@@ -299,7 +299,15 @@ class Gen:
         if issubclass(c, dc.IntegerConverter):
             return r.choice([0, 1, 42, 10 ** 12, r.randint(0, 10 ** 6)])
         if issubclass(c, dc.DecimalConverter):
-            return decimal.Decimal(r.choice(['0', '1', '-1.5', '0.001', '123456.789', '100', '-0.25', '3.14159', '1000000']))
+            # everyday values, and values whose str() is in exponent form: tiny magnitudes (< 1e-6), positive exponents,
+            # trailing-zero exponents, up to 18 significant digits (the documented limit of the converter)
+            pool = ['0', '1', '-1.5', '0.001', '123456.789', '100', '-0.25', '3.14159', '1000000',
+                    '0.0000001', '1E-7', '2.5E-9', '-0.000000000123', '1.23E-1', '0E-15', '1E+3', '-4.2E+5', '12E+15',
+                    '123456789012345678', '0.000000123456789', '99999999.99999999', '-1E-12']
+            if r.random() < 0.25:
+                digits = ''.join(r.choice('0123456789') for _ in range(r.randint(1, 12))).lstrip('0') or '7'
+                return decimal.Decimal(f'{r.choice(["", "-"])}{digits}E{r.randint(-17, 6 if len(digits) < 10 else 0)}')
+            return decimal.Decimal(r.choice(pool))
         if issubclass(c, dc.TimestampConverter):
             return r.choice([0, 1, 1700000000123, r.randint(0, 2 ** 40)]) / 1000
         if issubclass(c, dc.DurationConverter):
@@ -1143,7 +1151,7 @@ def first_diff(a, b):
 def member_of_diff(a, b):
     """class.member path of the innermost differing member (for a stable signature)"""
     path, u, w = first_diff(sh.canonical(a), sh.canonical(b))
-    names = [s for s in path.split('/') if s and not s.isdigit() and s not in ('o', 'l') and not s.startswith('(')]
+    names = [s for s in path.split('/') if s and not s.isdigit() and len(s) > 1 and not s.startswith('(')]   # type tags are 1 letter
     return '.'.join(names[-2:]) if names else path, u, w
 
 
